@@ -30,6 +30,10 @@ func C10(r *core.Run) {
 	rule106(r)
 	rule107(r)
 	rule108(r)
+	rule109(r)
+	rule1010(r)
+	rule016(r, "C10")
+	rule019(r)
 }
 
 // fsCall: the call is a use of an afero filesystem (method of afero.Fs or an
@@ -767,4 +771,184 @@ func keyCheckedByCallers(r *core.Run, sans map[*ssa.Function]bool, fn *ssa.Funct
 		}
 	}
 	return true
+}
+
+// rule109 — a bolt write goes to the bucket that pairs with its key.
+func rule109(r *core.Run) {
+	r.Rule("R10.9", "in s3bolt every (*bolt.Bucket).Put/Delete whose key derives from an object-key parameter is issued on the bucket handle obtained (tx.Bucket / s3Bucket) for the bucket-name parameter that immediately precedes that key parameter in the method's signature — in a method with two (bucket, key) pairs a write keyed by the destination key cannot land in the source bucket")
+	n := 0
+	for _, fn := range r.P.FuncsOfPkg("s3bolt") {
+		f := fn
+		top := f
+		for top.Parent() != nil {
+			top = top.Parent()
+		}
+		// (bucket, key) pairs of the enclosing method: consecutive string parameters
+		type pair struct{ b, k *ssa.Parameter }
+		var pairs []pair
+		ps := top.Params
+		for i := 0; i+1 < len(ps); i++ {
+			if ps[i].Type().String() == "string" && ps[i+1].Type().String() == "string" {
+				bn, kn := strings.ToLower(ps[i].Name()), strings.ToLower(ps[i+1].Name())
+				if strings.Contains(bn, "bucket") && (strings.Contains(kn, "key") || strings.Contains(kn, "object")) {
+					pairs = append(pairs, pair{ps[i], ps[i+1]})
+				}
+			}
+		}
+		if len(pairs) == 0 {
+			continue
+		}
+		core.Instrs(f, func(in ssa.Instruction) {
+			c, ok := in.(*ssa.Call)
+			if !ok {
+				return
+			}
+			cn := r.P.CalleeName(c)
+			if cn != "(*go.etcd.io/bbolt.Bucket).Put" && cn != "(*go.etcd.io/bbolt.Bucket).Delete" {
+				return
+			}
+			ks := r.P.SliceOf(c.Call.Args[1], core.SliceOpts{Depth: 1})
+			hs := r.P.SliceOf(c.Call.Args[0], core.SliceOpts{Depth: 2})
+			for _, p := range pairs {
+				if !ks.HasValue(p.k) {
+					continue
+				}
+				n++
+				okH := hs.HasValue(p.b)
+				for _, q := range pairs {
+					if q.b != p.b && hs.HasValue(q.b) && !hs.HasValue(p.b) {
+						okH = false
+					}
+				}
+				r.Check(okH, "R10.9", key(fname(r, f), strings.TrimPrefix(cn, "(*go.etcd.io/bbolt.Bucket)."), p.k.Name()), pos(r, c), "handle of bucket "+p.b.Name()+" for key "+p.k.Name(),
+					"a record keyed by "+p.k.Name()+" is written through a bucket handle that does not come from "+p.b.Name()+": the write lands in another bucket (and can overwrite an unrelated key there)")
+			}
+		})
+	}
+	r.Floor("R10.9", 2, "bolt writes paired with their bucket")
+}
+
+// rule1010 — bucket names and listing prefixes cannot address the filesystem outside a bucket.
+func rule1010(r *core.Run) {
+	r.Rule("R10.10", "every exported MultiBucketBackend method with a bucket-name parameter performs filesystem / metadata-store calls whose path derives from that parameter only after a checked gofakes3.ValidateBucketName of it ('.', '..' or a path are directories, not buckets); in both fs backends the directory part of a listing prefix reaches getBucketWithFilePrefixLocked only when it is empty or passed the key-containment check")
+	vf := mustFunc(r, "gofakes3.ValidateBucketName")
+	if vf == nil {
+		return
+	}
+	n := 0
+	for _, fn := range r.P.FuncsOfPkg("s3afero") {
+		name := fname(r, fn)
+		if fn.Parent() != nil || !strings.HasPrefix(name, "s3afero.(*MultiBucketBackend).") || !isExportedName(fn.Name()) {
+			continue
+		}
+		var bps []*ssa.Parameter
+		for _, p := range fn.Params[1:] {
+			pn := strings.ToLower(p.Name())
+			if p.Type().String() == "string" && (pn == "name" || strings.Contains(pn, "bucket")) {
+				bps = append(bps, p)
+			}
+		}
+		if len(bps) == 0 || fn.Name() == "CopyObject" {
+			continue // CopyObject delegates to GetObject/PutObject
+		}
+		f := fn
+		for _, bp := range bps {
+			var checks []*ssa.Call
+			core.Instrs(f, func(in ssa.Instruction) {
+				if c, ok := in.(*ssa.Call); ok && core.StaticCallee(c) == vf && c.Call.Args[0] == ssa.Value(bp) {
+					checks = append(checks, c)
+				}
+			})
+			// uses of the bucket name as (part of) a path, in this function and its closures
+			for _, g := range core.Closures(f) {
+				gg := g
+				core.Instrs(gg, func(in ssa.Instruction) {
+					c, ok := in.(ssa.CallInstruction)
+					if !ok {
+						return
+					}
+					paths, isFs := fsCallPaths(r, c)
+					cn := r.P.CalleeName(c)
+					if !isFs && !strings.HasPrefix(cn, "s3afero.(*metaStore).") {
+						return
+					}
+					var vals []ssa.Value
+					vals = append(vals, paths...)
+					if !isFs {
+						vals = c.Common().Args
+					}
+					uses := false
+					for _, v := range vals {
+						if r.P.SliceOf(v, core.SliceOpts{Depth: -1}).HasValue(bp) {
+							uses = true
+						}
+					}
+					if !uses {
+						return
+					}
+					n++
+					ok2 := false
+					for _, ch := range checks {
+						at := in
+						if gg != f {
+							// a closure of the method: the check must precede its creation
+							at = nil
+							core.Instrs(f, func(x ssa.Instruction) {
+								if mc, isMC := x.(*ssa.MakeClosure); isMC && mc.Fn == ssa.Value(gg) {
+									at = x
+								}
+							})
+						}
+						if at != nil && core.CheckedBefore(ch, at) {
+							ok2 = true
+						}
+					}
+					r.Check(ok2, "R10.10", key(name, "bucket name validated before use", cn, sprintf("#%d", n)), pos(r, in), "ValidateBucketName("+bp.Name()+") checked first",
+						"the bucket name "+bp.Name()+" reaches the filesystem without having passed ValidateBucketName: '.' addresses the directory that holds all buckets (HEAD /. answers 200, a forced DELETE /. removes every bucket)")
+				})
+			}
+		}
+	}
+	// listing prefix directory
+	for _, impl := range []string{"s3afero.(*MultiBucketBackend)", "s3afero.(*SingleBucketBackend)"} {
+		lb := implMethod(r, impl, "ListBucket")
+		helper := optFunc(r, impl+".getBucketWithFilePrefixLocked")
+		if lb == nil || helper == nil {
+			continue
+		}
+		for _, c := range r.P.StaticCallers(helper) {
+			if c.Parent() != lb {
+				continue
+			}
+			n++
+			pv := c.Common().Args[2]
+			// the sanitiser call on that value and the emptiness comparison
+			assume := map[ssa.Value]bool{}
+			sanOK := false
+			core.Instrs(lb, func(in ssa.Instruction) {
+				switch x := in.(type) {
+				case *ssa.Call:
+					if sc := core.StaticCallee(x); sc != nil && fname(r, sc) == "s3afero.checkObjectName" && x.Call.Args[0] == pv {
+						sanOK = true
+						// its error compared with nil
+						for _, ref := range *x.Referrers() {
+							if b, ok := ref.(*ssa.BinOp); ok && (core.IsNilConst(b.X) || core.IsNilConst(b.Y)) {
+								assume[b] = b.Op == token.NEQ // the check failed
+							}
+						}
+					}
+				case *ssa.BinOp:
+					if (x.Op == token.NEQ || x.Op == token.EQL) && (x.X == pv || x.Y == pv) {
+						if k, ok := core.ConstString(x.Y); ok && k == "" {
+							assume[x] = x.Op == token.NEQ // the directory part is not empty
+						}
+					}
+				}
+			})
+			reach := !sanOK || core.ReachableFromEntryAssuming(c.(ssa.Instruction), assume)
+			r.Check(!reach, "R10.10", key(fname(r, lb), "prefix directory contained"), pos(r, c.(ssa.Instruction)), "non-empty prefix directory passes checkObjectName before it is read",
+				"the directory part of a listing prefix is read below the bucket without the containment check: GET /a?prefix=../b/&delimiter=/ lists bucket b's directory")
+		}
+	}
+	r.Floor("R10.10", 12, "bucket-name and prefix-directory uses")
 }
